@@ -155,6 +155,122 @@ def adapter_job(masked):
     return label, masked, recs, time.time() - t00
 
 
+def lpddr5_job(masked):
+    """LPDDR5 DFIPhaseAdapter: every DFI command decodes (JESD209-5 truth table typed here) to the same operation/operands"""
+    from vlib.fhdl2smt import Design
+    label = "lpddr5_adapter_masked_%s" % masked
+    recs = []
+    t00 = time.time()
+    try:
+        from litedram.phy.dfi import Interface
+        from litedram.phy.lpddr5.commands import DFIPhaseAdapter as A5
+
+        class Top(Module):
+            pass
+        top = Top()
+        dfi = Interface(addressbits=18, bankbits=7, nranks=1, databits=16, nphases=1)
+        ph = dfi.phases[0]
+        mw = Signal(name_override="masked_write") if masked == "dyn" else bool(masked)
+        top.submodules.a = a = A5(ph, masked_write=mw)
+        ins = [ph.cs_n, ph.ras_n, ph.cas_n, ph.we_n, ph.bank, ph.address, a.wck_sync_done] + ([mw] if masked == "dyn" else [])
+        d = Design(top, inputs=ins)
+        CSN, RASN, CASN, WEN = [d._tvars[s_] for s_ in (ph.cs_n, ph.ras_n, ph.cas_n, ph.we_n)]
+        BA, A = d._tvars[ph.bank], d._tvars[ph.address]
+        SD = d._tvars[a.wck_sync_done]
+        cs = d.sig_val(a.cs).t
+        ca = [d.sig_val(a.ca[i]).t for i in range(4)]
+        valid = d.sig_val(a.valid).t
+        MW = (d._tvars[mw] == 1) if masked == "dyn" else z3.BoolVal(bool(masked))
+
+        def bit(t, i):
+            return z3.Extract(i, i, t)
+
+        def pat(slot, pattern):
+            return z3.And(*[bit(ca[slot], i) == v for i, v in enumerate(pattern) if v is not None])
+
+        def bitsx(slot, lo, hi):
+            return z3.Extract(hi, lo, ca[slot])
+        cs0, cs1 = bit(cs, 0) == 1, bit(cs, 1) == 1
+        # command = (rising edge CA[6:0], falling edge CA[6:0]) with CS high; first command in slots 0/1, second in 2/3
+        two = z3.And(cs0, cs1)
+        one = z3.And(z3.Not(cs0), cs1)
+        dec = {}
+        dec["ACT"] = z3.And(two, pat(0, [H, H, H]), pat(2, [H, H, L]))
+        act_row = z3.Concat(bitsx(0, 3, 6), bitsx(1, 4, 6), bitsx(2, 3, 6), bitsx(3, 0, 6))     # R17..R14, R13..R11, R10..R7, R6..R0
+        act_ba = bitsx(1, 0, 3)
+        cas1 = pat(0, [L, L, H, H])
+        dec["RD"] = z3.And(two, cas1, pat(2, [H, L, L]))
+        dec["WR"] = z3.And(two, cas1, pat(2, [L, H, H]))
+        dec["MWR"] = z3.And(two, cas1, pat(2, [L, H, L]))
+        dec["MRR"] = z3.And(two, cas1, pat(2, [L, L, L, H, H, L, L]))
+        dec["MRW"] = z3.And(two, pat(0, [L, L, L, H, H, L, H]), pat(2, [L, L, L, H, L, L]))
+        cas_ws = bitsx(0, 4, 6)          # WS_WR, WS_RD, WS_FS
+        cas_rest = ca[1]
+        col = z3.Concat(bitsx(2, 4, 6), bitsx(3, 4, 5), bit(ca[2], 3))   # C5 C4 C3 | C2 C1 | C0
+        rw_ba = bitsx(3, 0, 3)
+        rw_ap = bit(ca[3], 6)
+        dec["PRE"] = z3.And(one, pat(2, [L, L, L, H, H, H, H]))
+        dec["REF"] = z3.And(one, pat(2, [L, L, L, H, H, H, L]))
+        dec["MPC"] = z3.And(one, pat(2, [L, L, L, L, H, H]))
+        dec["NOP"] = z3.And(one, pat(2, [L, L, L, L, L, L, L]))
+        dec["NONE"] = cs == 0
+        sel = CSN == 0
+
+        def dfi_cmd(cas, ras, we):
+            return z3.And(sel, CASN == (0 if cas else 1), RASN == (0 if ras else 1), WEN == (0 if we else 1))
+        is_act, is_rd, is_wr = dfi_cmd(0, 1, 0), dfi_cmd(1, 0, 0), dfi_cmd(1, 0, 1)
+        is_pre, is_ref, is_zqc, is_mrs = dfi_cmd(0, 1, 1), dfi_cmd(1, 1, 0), dfi_cmd(0, 0, 1), dfi_cmd(1, 1, 1)
+        is_nop = z3.Or(z3.Not(sel), dfi_cmd(0, 0, 0))
+
+        def solve(q, *cons, expect="unsat"):
+            s_ = z3.Solver()
+            s_.set("timeout", 300000)
+            s_.add(*cons)
+            t0 = time.time()
+            r = str(s_.check())
+            rec = dict(q=q, result=r, s=round(time.time() - t0, 2), expect=expect)
+            if r == "sat":
+                m = s_.model()
+                rec["model"] = {str(x.name()): (m[x].as_long() if z3.is_bv_value(m[x]) else str(m[x])) for x in m.decls()}
+            recs.append(rec)
+        ex = lambda hi, lo, t: z3.Extract(hi, lo, t)
+        exp_ws = lambda kind: z3.If(SD == 0, z3.BitVecVal({"WR": 0b001, "RD": 0b010}[kind], 3), z3.BitVecVal(0, 3))
+        solve("lpddr5_activate_decodes_to_same_bank_and_row", is_act,
+              z3.Or(z3.Not(dec["ACT"]), act_ba != ex(3, 0, BA), act_row != ex(17, 0, A), valid != 1))
+        solve("lpddr5_read_decodes_to_cas_plus_read_same_bank_column_autoprecharge", is_rd,
+              z3.Or(z3.Not(dec["RD"]), rw_ba != ex(3, 0, BA), col != ex(9, 4, A), rw_ap != ex(10, 10, A), cas_ws != exp_ws("RD"),
+                    cas_rest != 0, valid != 1))
+        solve("lpddr5_write_decodes_to_cas_plus_write_or_masked_write", is_wr,
+              z3.Or(z3.Not(z3.If(MW, dec["MWR"], dec["WR"])), rw_ba != ex(3, 0, BA), col != ex(9, 4, A), rw_ap != ex(10, 10, A),
+                    cas_ws != exp_ws("WR"), cas_rest != 0, valid != 1))
+        solve("lpddr5_precharge_decodes_to_same_bank_and_all_bank_flag", is_pre,
+              z3.Or(z3.Not(dec["PRE"]), bitsx(3, 0, 3) != ex(3, 0, BA), bit(ca[3], 6) != ex(10, 10, A), valid != 1))
+        solve("lpddr5_refresh_decodes_with_all_bank_flag", is_ref,
+              z3.Or(z3.Not(dec["REF"]), bitsx(3, 0, 2) != ex(2, 0, BA), bit(ca[3], 6) != ex(10, 10, A), valid != 1))
+        solve("lpddr5_mode_register_write_decodes_to_same_register_and_operand", is_mrs,
+              z3.Or(z3.Not(dec["MRW"]), ca[1] != ex(6, 0, BA), z3.Concat(bit(ca[2], 6), ca[3]) != ex(7, 0, A), valid != 1))
+        solve("lpddr5_mode_register_read_decodes_to_same_register", z3.And(is_zqc, BA == 1),
+              z3.Or(z3.Not(dec["MRR"]), ca[3] != ex(6, 0, A), valid != 1))
+        solve("lpddr5_mpc_decodes_to_operand(0_means_zq_latch)", z3.And(is_zqc, BA == 0),
+              z3.Or(z3.Not(dec["MPC"]), z3.Concat(bit(ca[2], 6), ca[3]) != z3.If(A == 0, z3.BitVecVal(0b10000110, 8), ex(7, 0, A)), valid != 1))
+        solve("lpddr5_no_command_emits_nothing", z3.Or(is_nop, z3.And(is_zqc, z3.UGT(BA, 2))), z3.Or(z3.Not(dec["NONE"]), valid != 0))
+        # encoding is injective in the operands (no truth table involved): two ACTs / two reads with different operands differ on CA
+        A2 = z3.BitVec("A2", 18)
+        B2 = z3.BitVec("B2", 7)
+        sub = [(A, A2), (BA, B2)]
+        ca2 = [z3.substitute(x, *sub) for x in ca]
+        same = z3.And(*[x == y for x, y in zip(ca, ca2)])
+        solve("lpddr5_two_activates_with_different_bank_or_row_never_share_a_ca_sequence", is_act,
+              z3.Or(ex(3, 0, BA) != ex(3, 0, B2), ex(17, 0, A) != ex(17, 0, A2)), same)
+        solve("lpddr5_two_reads_with_different_bank_column_or_ap_never_share_a_ca_sequence", is_rd,
+              z3.Or(ex(3, 0, BA) != ex(3, 0, B2), ex(10, 4, A) != ex(10, 4, A2)), same)
+        solve("lpddr5_witness_activate", is_act, dec["ACT"], expect="sat")
+    except Exception as e:
+        import traceback
+        recs.append(dict(q="encode", result="unknown", s=0.0, expect="unsat", detail="%r\n%s" % (e, traceback.format_exc())))
+    return label, masked, recs, time.time() - t00
+
+
 # ---- (2) pipeline ----------------------------------------------------------------------------------
 
 class FakeAdapter:
@@ -298,10 +414,12 @@ def run(ctx):
     ctx.assume("pipeline: adapter outputs are free inputs (any cs/ca when valid, all-zero when not valid -- what the real adapters "
                "produce, proved in part 1) in the pipeline_basic/extended benches; "
                "pipeline latency 1 controller cycle; LPDDR4 parameters nphases=8, span=4, SDR CS/CA")
-    ctx.assume("LPDDR5 encoder and the serializer/pad layer of the concrete PHYs are not covered by this check yet")
+    ctx.assume("LPDDR5: adapter only (16-bank organisation, as the source supports); WCK-sync bits of CAS follow wck_sync_done; the "
+               "LPDDR5 command buffer/PipeValid path and the serializer/pad layer of the concrete PHYs are not covered")
     ctxm = multiprocessing.get_context("fork")
-    with cf.ProcessPoolExecutor(max_workers=3, mp_context=ctxm) as ex:
-        for label, masked, recs, secs in ex.map(adapter_job, [False, True, "dyn"], chunksize=1):
+    with cf.ProcessPoolExecutor(max_workers=6, mp_context=ctxm) as ex:
+        results = list(ex.map(adapter_job, [False, True, "dyn"], chunksize=1)) + list(ex.map(lpddr5_job, [False, True, "dyn"], chunksize=1))
+        for label, masked, recs, secs in results:
             for r in recs:
                 ql = "%s:%s" % (label, r["q"])
                 ctx.oblige(ql, r["result"], r["s"], expect=r["expect"], detail=r.get("detail"),
